@@ -64,3 +64,11 @@ NATIVE['n_c16_layout'] = dict(
     functions=[('crates/cairo-lang-sierra-to-casm/src/compiler.rs', 'impl ConstsInfo', 'new'),
                ('crates/cairo-lang-sierra-to-casm/src/relocations.rs', None, 'relocate_instructions')],
 )
+NATIVE['n_c16_entry_code'] = dict(
+    crate='cairo-lang-runnable-utils',
+    host='crates/cairo-lang-runnable-utils/src/builder.rs',
+    harness='native/cairo-lang-runnable-utils/n_c16_entry_code.rs',
+    props={'C16'},
+    bound='entry codes (testing configuration) for 24 code offsets (incl. the 2^15 and 2^16 boundaries, up to 2^24) x 5 parameter lists',
+    functions=[('crates/cairo-lang-runnable-utils/src/builder.rs', None, 'create_entry_code_from_params')],
+)
